@@ -79,6 +79,7 @@ def run(ctx, rng_name="main"):
     rng = ctx.rng(rng_name)
     batch = []
     hangs = 0
+    load_hangs = 0
 
     def flush():
         if not batch:
@@ -97,6 +98,13 @@ def run(ctx, rng_name="main"):
         ctx.evaluation()
         ctx.hist("graph", kind)
         sd, impl = rev_impl.load(h)
+        if sd is None and impl.get("err") == "hang":
+            load_hangs += 1
+            ctx.fail({"revs": h, "cmd": "load"}, "hang: loading the history does not terminate (neither accepted nor rejected with a cycle error)", impl=impl, tags=["hang", "load"])
+            if load_hangs >= 3:
+                ctx.note("three histories on which loading hangs: remaining histories skipped")
+                break
+            continue
         if sd is not None and hangs < 3:
             # accepted: every traversal must terminate (after three hangs the point is made: each costs the full alarm)
             for cmd, rows, tgt in (("upgrade", [], "heads"), ("downgrade", impl["ok"]["realHeads"], "base")):
